@@ -209,3 +209,24 @@ func verifBytesEq(a, b []byte) bool {
 	}
 	return eq
 }
+
+// verifOpenStream is the message-emitting half of Multiplexer.OpenStream (which as
+// a whole waits for the peer's answer and cannot run in one goroutine).
+func verifOpenStream(m *Multiplexer) *Stream {
+	m.streamLock.Lock()
+	stream := newStream(m, m.nextOutboundStreamIdentifier, m.configuration.StreamReceiveWindow)
+	m.streams[m.nextOutboundStreamIdentifier] = stream
+	m.nextOutboundStreamIdentifier += 2
+	m.streamLock.Unlock()
+	writeBuffer := <-m.writeBufferAvailable
+	writeBuffer.encodeOpenMessage(stream.identifier, uint64(m.configuration.StreamReceiveWindow))
+	m.writeBufferPending <- writeBuffer
+	return stream
+}
+
+
+// verifIsEOF: a reader loop ended because its input ended.
+func verifIsEOF(err error) bool {
+	return err != nil && verifEndOfInput(err)
+}
+
